@@ -173,7 +173,7 @@ WORKERS = {'compositions': w_hier, 'reduced': w_hier, 'ids': w_hier,
 
 
 def build(tier, seed):
-    kinds = hier.KINDS6 if tier == 'quick' else hier.KINDS10
+    kinds = hier.KINDS10       # every class in both tiers
     max_ids = 2 if tier == 'quick' else 3
     cases = []
     for spec in hier.structures(3, kinds):
@@ -185,6 +185,21 @@ def build(tier, seed):
         for spec in hier.structures(4, hier.KINDS6):
             for n_ids in (1, 2, 3):
                 cases.append(hier.make_case(spec, n_ids, seed, err='CM'))
+    # covariate models with an explicit selection on a 2-dimensional model (the
+    # betas are published under the selected parameter's name)
+    for sel in ([[0, 1]], [[1, 0]], [[0, 1], [1, 0]], [[1, 1], [0, 0]]):
+        for inner in (rp.G(2), rp.LN(2, False)):
+            for spec in (rp.Comp([rp.Cov(inner, 1, sel), rp.P(1)]),
+                         rp.Comp([rp.P(1), rp.Cov(inner, 2, sel)])):
+                for n_ids in (1, 2):
+                    cases.append(hier.make_case(spec, n_ids, seed))
+    # covariates supplied although the population model has none: ignored
+    for spec in hier.structures(3, ['G', 'Gnc', 'LNnc', 'TG', 'P', 'H']):
+        if spec['kind'] != 'Comp' or len(spec['parts']) == 2 or tier == 'thorough':
+            for n_ids in (1, 2):
+                c = hier.make_case(spec, n_ids, seed)
+                c['extra_cov'] = True
+                cases.append(c)
     # names reset to defaults after user-given names (n_ids = 3: heterogeneous
     # blocks of several dimensions and individuals)
     for spec in hier.structures(3, kinds):
@@ -241,6 +256,15 @@ def build(tier, seed):
             c = hier.make_case(spec, n_ids, seed)
             c['value_only'] = True
             nest.append(c)
+    # several covariate models built around ONE base model object: each keeps its own
+    # copy, so names and values are those of separately built base models
+    for parts in ([rp.Cov(rp.G(1), 1), rp.Cov(rp.G(1), 1), rp.LN(1)],
+                  [rp.Cov(rp.LN(1, False), 1), rp.P(1), rp.Cov(rp.LN(1, False), 2)],
+                  [rp.Cov(rp.P(1), 1), rp.Cov(rp.P(1), 1), rp.Cov(rp.P(1), 2)]):
+        spec = rp.Comp(parts)
+        spec['shared_inner'] = True
+        for n_ids in (1, 2, 3):
+            nest.append(hier.make_case(spec, n_ids, seed))
     # whole-number parameter vectors in integer / list / float form
     intc = []
     for spec in hier.structures(3, ['G', 'LNnc', 'P', 'Cov(G)', 'Cov(LNnc)']):
@@ -255,6 +279,17 @@ def build(tier, seed):
             for i_, nm in enumerate(names_b):
                 if nm.lower().startswith(('mean', 'log mean', 'pooled')) or \
                         'Cov.' in nm:
+                    red.append(hier.make_case(rp.Red(base, {i_: 0.0}), n_ids, seed))
+    # ... and so is the scale of a non-centred dimension (the individuals then all
+    # sit on the population mean, their eta still scored as standard normal)
+    for base in (rp.Comp([rp.G(1, False), rp.P(1), rp.LN(1)]),
+                 rp.Comp([rp.H(1), rp.G(2, False)]),
+                 rp.Comp([rp.G(1), rp.LN(1, False), rp.P(1)]),
+                 rp.Comp([rp.Cov(rp.G(1, False)), rp.G(2)])):
+        for n_ids in (1, 2):
+            names_b = popbuild.build(base, n_ids).get_parameter_names()
+            for i_, nm in enumerate(names_b):
+                if nm.lower().startswith(('std', 'log std')) and 'Cov.' not in nm:
                     red.append(hier.make_case(rp.Red(base, {i_: 0.0}), n_ids, seed))
     # ID handling: integer, float-with-.0 and string IDs
     idc = []
